@@ -249,3 +249,15 @@ Definition line_pos (k : HitObjectKind) : option Pos :=
   | KSpinner s => None           (* the decoder puts every spinner at the centre *)
   | KHold hd => Some (mkPos (hd_pos_x hd) (hd_pos_x hd))
   end.
+
+(* ---------- timing-point lines ---------- *)
+
+(* the shape of every line of the [TimingPoints] section *)
+Definition tp_line (time beat : F64) (p : Props) (is_timing : bool) : line :=
+  [TF64 time; t_comma; TF64 beat; t_comma] ++ props_toks p is_timing.
+
+(* the beat-length field: any finite value within the limits (the decoder also lets NaN
+   through on inherited lines) *)
+Definition tp_line_ok (time beat : F64) (p : Props) (is_timing : bool) : bool :=
+  in_lim64 time && in_lim64 beat && (0 <? pr_sig p) && i32_ok (pr_sig p) && i32_ok (pr_bank p) &&
+  i32_ok (pr_custom p) && i32_ok (pr_vol p) && raw_i32_ok (pr_flags p).
